@@ -77,6 +77,8 @@ type SpecFunc struct {
 }
 
 type Axiom struct {
+	NoAssume bool // theorem: proved by induction like a lemma but not handed to the solver as an axiom
+	IndVar string // lemma: variable of the induction (proved by base n <= 0 and step n-1 -> n)
 	Name  string
 	E     SExpr
 	Text  string
@@ -378,7 +380,7 @@ func (ss *SpecSet) LoadContractFile(path string, pkgPath string) error {
 				return fmt.Errorf("%s: duplicate spec function %s", src, sf.Name)
 			}
 			ss.Funcs[sf.Name] = sf
-		case "axiom", "lemma":
+		case "axiom", "lemma", "theorem":
 			cur = nil
 			colon := strings.Index(rest, ":")
 			if colon < 0 {
@@ -388,7 +390,16 @@ func (ss *SpecSet) LoadContractFile(path string, pkgPath string) error {
 			if err != nil {
 				return fmt.Errorf("%s: %v", src, err)
 			}
-			ss.Axioms = append(ss.Axioms, &Axiom{Name: strings.TrimSpace(rest[:colon]), E: e, Text: strings.TrimSpace(rest[colon+1:]), Pkg: pkgPath, Lemma: word == "lemma", Src: src})
+			ax := &Axiom{Name: strings.TrimSpace(rest[:colon]), E: e, Text: strings.TrimSpace(rest[colon+1:]), Pkg: pkgPath, Lemma: word != "axiom", NoAssume: word == "theorem", Src: src}
+			if hf := strings.Fields(ax.Name); len(hf) == 3 && hf[1] == "induction" {
+				ax.Name, ax.IndVar = hf[0], hf[2]
+			} else if len(hf) != 1 {
+				return fmt.Errorf("%s: bad axiom/lemma header %q", src, ax.Name)
+			}
+			if ax.Lemma && ax.IndVar == "" {
+				return fmt.Errorf("%s: lemma %s needs 'induction <var>' (lemmas are proved, never assumed)", src, ax.Name)
+			}
+			ss.Axioms = append(ss.Axioms, ax)
 		case "guarded":
 			cur = nil
 			// guarded T.f by mu
